@@ -427,3 +427,56 @@ def _freeze(sc: Circuit, how: str) -> None:
                     if hit:
                         n.learnable = False
                     i += 1
+
+
+# ---------------------------------------------------------------------------------------------
+# seeded random members (thorough tiers)
+# ---------------------------------------------------------------------------------------------
+
+
+def random_members(seed: int, n: int, normalized: bool = False, inputs=None) -> list[dict]:
+    """random region-graph circuits: algorithm arguments, layer abstraction / explicit factories, unit counts,
+    classes, input and weight parameterisations drawn from the ranges the fixed lists cover piecewise."""
+    rnd = random.Random(104729 * seed + 7)
+    out = []
+    inputs = inputs or (["cat-softmax", "cat2-softmax"] if normalized else ["cat-softmax", "cat-logits", "cat2-probs", "embedding", "embedding2"])
+    while len(out) < n:
+        a = rnd.choice(["rbt", "rbt", "lt", "lt", "ff", "qt", "qg", "pd"])
+        d = {"kind": "rg", "algo": a}
+        if a in ("rbt", "lt", "ff"):
+            d["nvars"] = rnd.randint(2, 5)
+            d["rep"] = rnd.choice([1, 1, 2])
+            if a == "rbt":
+                d["rgseed"] = rnd.randrange(10)
+                if rnd.random() < 0.3:
+                    d["depth"] = 2 if (d["nvars"] >= 4 and rnd.random() < 0.5) else 1
+            if a == "lt":
+                d["randomize"] = rnd.random() < 0.5
+                d["rgseed"] = rnd.randrange(10)
+        else:
+            d["shape"] = rnd.choice([[1, 2, 2], [1, 1, 3], [2, 1, 2], [1, 2, 3]])
+            if a == "qt":
+                d["splits"] = rnd.choice([2, 4])
+            if a == "pd":
+                d["delta"] = 1
+        K = rnd.choice([1, 2, 2, 3])
+        d["K"] = K
+        d["input"] = rnd.choice(inputs)
+        w = "softmax" if normalized else rnd.choice(["raw", "softmax", "exp"])
+        d["weights"] = w
+        if not normalized and rnd.random() < 0.15:
+            d["explicit"] = rnd.choice(["hadamard", "kronecker"])
+            d["input"] = "embedding"
+            d["weights"] = "raw"
+        else:
+            d["sp"] = rnd.choice(["cp", "cp-t", "tucker"])
+            if d["sp"] == "cp" and rnd.random() < 0.3:
+                d["Kin"] = rnd.choice([1, 2, 3])
+            if d["sp"] == "tucker" and K == 3 and a in ("qt", "qg", "pd"):
+                d["K"] = 2  # arity-4 Kronecker of 3 units = 81 units: keep the family small
+            if d.get("rep", 1) > 1 or a in ("qg", "pd"):
+                d["mixing"] = "softmax" if normalized else rnd.choice(["raw", "softmax"])
+        if rnd.random() < 0.2:
+            d["classes"] = rnd.choice([2, 3])
+        out.append(d)
+    return out
